@@ -69,6 +69,7 @@ func grammarJobs(quick bool) []job {
 	grs = append(grs, thinGr(gfam.Kinds(t), every)...)
 	grs = append(grs, thinGr(gfam.NegLookDeep(t), every)...)
 	grs = append(grs, thinGr(gfam.ElidedExplicit(t), every/2+1)...)
+	grs = append(grs, thinGr(gfam.EOFRef(t), every/8+1)...)
 	var out []job
 	for _, gr := range grs {
 		out = append(out, job{kind: "grammar", gr: gr})
